@@ -215,9 +215,53 @@ func (e *c07Env) advertProbe() (bool, string) {
 	return false, "the target did not learn a new service advertisement of its well-behaved neighbour w within 40 s (about 50 advertisement rounds)"
 }
 
+// transportProbe: a well-behaved peer connecting over the very transport the hostile sessions used must still
+// be accepted: it sends the handshake (repeated like a real node does) and must be listed among the target's
+// connections within a bound. The other probes run over the in-memory links and would not notice a listener
+// that no longer hands over datagrams.
+func (e *c07Env) transportProbe() (bool, string) {
+	e.gcount++
+	name := fmt.Sprintf("tp%d", e.gcount)
+	for attempt := 0; attempt < 3; attempt++ {
+		h, err := e.open(name)
+		if err != nil {
+			return false, "cannot open a session: " + err.Error()
+		}
+		for i := 0; i < 24; i++ {
+			_ = h.Send(wire.EncodeRoute(&wire.Route{NodeID: name, UpdateID: fmt.Sprintf("tp%s-%d-%d", name, attempt, i), UpdateEpoch: 6, UpdateSequence: uint64(i + 1), Connections: map[string]float64{c07Target: 1}, ForwardingNode: name}))
+			time.Sleep(250 * time.Millisecond)
+			stc := make(chan bool, 1)
+			go func() {
+				found := false
+				for _, c := range e.t.Status().Connections {
+					if c.NodeID == name {
+						found = true
+					}
+				}
+				stc <- found
+			}()
+			select {
+			case found := <-stc:
+				if found {
+					h.Close()
+					return true, ""
+				}
+			case <-time.After(20 * time.Second):
+				h.Close()
+				return false, "the target's Status() did not return within 20 s"
+			}
+		}
+		h.Close()
+	}
+	return false, fmt.Sprintf("a well-behaved peer (%s) sending its handshake over %s was not accepted as a connection in 3 sessions x 24 handshake rounds", name, e.transport)
+}
+
 func (e *c07Env) joinProbe() (bool, string) {
 	if ok, why := e.advertProbe(); !ok {
 		return false, "adverts: " + why
+	}
+	if ok, why := e.transportProbe(); !ok {
+		return false, "transport: " + why
 	}
 	e.gcount++
 	gid := fmt.Sprintf("g%d", e.gcount)
